@@ -185,6 +185,12 @@ func (u *Unit) Origins(v ssa.Value, opt *OriginOpts) []Origin {
 			walk(x.Tuple)
 		case *ssa.Call:
 			name := u.CalleeName(&x.Call)
+			if b, isB := x.Call.Value.(*ssa.Builtin); isB && (b.Name() == "append" || b.Name() == "min" || b.Name() == "max") {
+				for _, a := range x.Call.Args {
+					walk(a)
+				}
+				return
+			}
 			if idxs, ok := opt.Through[name]; ok {
 				for _, i := range idxs {
 					if i < len(x.Call.Args) {
